@@ -53,6 +53,95 @@ def snake_desc(rng, desc):
     return desc
 
 
+RARE_TYPE_NAMES = ["_Service", "_Entity", "_Any", "_0", "_9x", "T", "t", "A1", "type", "on", "query", "input", "Null", "fragment", "_"]
+RARE_FIELD_NAMES = ["_x", "on", "type", "query", "_1", "a", "f9", "_"]      # (stable and collision-free under camel-casing)
+RARE_ARG_NAMES = ["_a", "on", "if", "type", "_"]
+RARE_VALUE_NAMES = ["_V", "on", "type", "v", "V", "A1", "_"]
+RARE_DIRECTIVE_NAMES = ["_dir", "d", "D", "type", "on", "_"]
+
+
+def _map_type(t, ren):
+    return ("named", ren.get(t[1], t[1])) if t[0] == "named" else (t[0], _map_type(t[1], ren))
+
+
+def rare_names(rng, desc):
+    """Rare but VALID names (own world builder; `harness/gen/schema.py` is untouched): type names with ONE leading underscore
+    (`_Service`, `_Entity`, `_Any`: the federation names), `_` + digits, one-letter names, names differing only by case,
+    keyword-like names (`type`, `on`, `query`, `input`, `fragment`); the same for fields, arguments, enum values and
+    directives. Every renamed type references other user types and is referenced from the root, so that the closedness,
+    frame and visibility oracles see it."""
+    desc = copy.deepcopy(desc)
+    roots = {desc.get("query"), desc.get("mutation"), desc.get("subscription")}
+    existing = {t["name"] for t in desc["types"]}
+    cand = [t for t in desc["types"] if t["name"] not in roots]
+    rng.shuffle(cand)
+    pool = [n for n in RARE_TYPE_NAMES if n not in existing]
+    rng.shuffle(pool)
+    ren = {}
+    for t in cand[:rng.randint(1, 3)]:
+        if pool:
+            ren[t["name"]] = pool.pop()
+    all_defaults = " ".join((a.get("default") or "") for t in desc["types"] for f in t.get("fields", [])
+                            for a in ([f] + f.get("args", []))) + " ".join((a.get("default") or "") for d in desc["directives"] for a in d["args"])
+    for t in desc["types"]:
+        t["name"] = ren.get(t["name"], t["name"])
+        if "interfaces" in t:
+            t["interfaces"] = [ren.get(i, i) for i in t["interfaces"]]
+        if "members" in t:
+            t["members"] = [ren.get(m, m) for m in t["members"]]
+        for f in t.get("fields", []):
+            f["type"] = _map_type(f["type"], ren)
+            for a in f.get("args", []):
+                a["type"] = _map_type(a["type"], ren)
+    for d in desc["directives"]:
+        for a in d["args"]:
+            a["type"] = _map_type(a["type"], ren)
+    by_name = {t["name"]: t for t in desc["types"]}
+    out_names = [t["name"] for t in desc["types"] if t["kind"] in ("object", "interface", "union") and t["name"] not in roots]
+    in_names = [t["name"] for t in desc["types"] if t["kind"] in ("enum", "input", "scalar")]
+    q = by_name[desc["query"]]
+    for k, new in enumerate(sorted(ren.values())):
+        t = by_name[new]
+        if t["kind"] == "object":
+            # the rare-named type references other user types (output, and input through an argument)
+            others = [n for n in out_names if n != new] or [new]
+            arg = [{"name": "_a", "type": ("named", rng.choice(in_names)), "default": None, "desc": None}] if in_names else []
+            t["fields"].append({"name": "link_%d" % k, "type": ("named", rng.choice(others)), "args": arg, "deprecated": None, "desc": None})
+        if t["kind"] in ("object", "interface", "union"):
+            q["fields"].append({"name": "rare_%d" % k, "type": ("named", new), "args": [], "deprecated": None, "desc": None})
+        elif t["kind"] in ("enum", "input", "scalar"):
+            q["fields"].append({"name": "rare_%d" % k, "type": ("named", "Int"),
+                                "args": [{"name": "v", "type": ("named", new), "default": None, "desc": None}], "deprecated": None, "desc": None})
+    # fields / arguments of object types (own fields only: interface fields must keep the interface's names)
+    iface_fields = {f["name"] for t in desc["types"] if t["kind"] == "interface" for f in t["fields"]}
+    for t in desc["types"]:
+        if t["kind"] == "object" and rng.random() < 0.5:
+            names = {f["name"] for f in t["fields"]}
+            pool_f = [n for n in RARE_FIELD_NAMES if n not in names]
+            rng.shuffle(pool_f)
+            for f in t["fields"]:
+                if f["name"] in iface_fields or not pool_f or rng.random() < 0.5:
+                    continue
+                f["name"] = pool_f.pop()
+                pool_a = [n for n in RARE_ARG_NAMES if n not in {a["name"] for a in f.get("args", [])}]
+                rng.shuffle(pool_a)
+                for a in f.get("args", []):
+                    if pool_a and rng.random() < 0.6:
+                        a["name"] = pool_a.pop()
+        if t["kind"] == "enum" and rng.random() < 0.5:
+            pool_v = [n for n in RARE_VALUE_NAMES if n not in {v["name"] for v in t["values"]}]
+            rng.shuffle(pool_v)
+            for v in t["values"]:
+                if pool_v and v["name"] not in all_defaults and rng.random() < 0.6:
+                    v["name"] = pool_v.pop()
+    pool_d = [n for n in RARE_DIRECTIVE_NAMES]
+    rng.shuffle(pool_d)
+    for d in desc["directives"]:
+        if pool_d and rng.random() < 0.6:
+            d["name"] = pool_d.pop()
+    return desc
+
+
 class Funcs:
     """Resolver-like functions with a stable small identity (`_vid`)."""
 
@@ -103,10 +192,28 @@ def build_source(rng, size, funcs):
     """(description, sdl, live schema with code-built attributes)."""
     from py_gql import build_schema
     desc = snake_desc(rng, G.gen_schema(rng, size=size, with_mutation=(rng.random() < 0.4)))
-    sdl = G.to_sdl(desc)
-    schema = build_schema(sdl)
+    rare = rng.random() < 0.45
+    schema = None
+    if rare:
+        try:
+            rdesc = rare_names(random_fork(rng), desc)
+            rsdl = G.to_sdl(rdesc)
+            schema = build_schema(rsdl)
+            desc, sdl = rdesc, rsdl
+        except Exception:  # noqa  (a rare name the library does not accept: fall back to the plain names)
+            schema = None
+    if schema is None:
+        rare = False
+        sdl = G.to_sdl(desc)
+        schema = build_schema(sdl)
+    desc["rare_names"] = rare
     decorate(rng, schema, funcs)
     return desc, sdl, schema
+
+
+def random_fork(rng):
+    import random
+    return random.Random(rng.getrandbits(48))
 
 
 def decorate(rng, schema, funcs):
